@@ -15,5 +15,5 @@ MCNests == { Nest(2, <<Inc, Dec, Add2, IncE>>), Nest(2, <<Sub2, IncE, Dec, Inc>>
              Nest(3, <<Inc, DecR, Add2, Dec>>), Nest(1, <<Dec, Inc, Sub2, IncE>>),
              Nest(1, <<Add2, DecR>>), Nest(3, <<IncE, Inc, Dec, Inc, Sub2, Dec>>) }
 MCPairsQuick == { <<0, 2>>, <<-1, 1>>, <<1, 0>> }
-MCPairsThorough == { <<0, 2>>, <<-1, 1>>, <<1, 0>>, <<-2, 1>>, <<1, 1>> }
+MCPairsThorough == { <<0, 2>>, <<-1, 1>>, <<1, 0>>, <<-2, 1>> }
 =============================================================================
